@@ -230,6 +230,17 @@ pub fn configs(tier: Tier) -> Vec<Cfg> {
             v.push(Cfg { aimd: true, initial, max, deposit, withdraw, min, programs: p.clone(), built: 0 });
         }
     }
+    // the smallest budgets: a maximum of 0 ("never retry") must stay at 0 whatever happens, a
+    // maximum of 1 with a floor of 0 must never exceed 1
+    for (min, max, initial, deposit, withdraw) in [(0usize, 0usize, 0usize, 1usize, 1usize), (0, 1, 0, 1, 1)] {
+        for p in [vec!["W", "D"], vec!["WD", "DW"], vec!["WDW", "D"]] {
+            v.push(Cfg { aimd: true, initial, max, deposit, withdraw, min, programs: p.clone(), built: 0 });
+            v.push(Cfg { aimd: true, initial, max, deposit, withdraw, min, programs: p, built: 1 });
+        }
+    }
+    for p in [vec!["W", "D"], vec!["WD", "DW"]] {
+        v.push(Cfg { aimd: false, initial: 0, max: 0, deposit: 1, withdraw: 1, min: 0, programs: p, built: 0 });
+    }
     // AIMD budgets made by the public builder, with unequal amounts (start full)
     for (min, max, initial, deposit, withdraw) in [(1usize, 4usize, 4usize, 1usize, 3usize), (1, 3, 3, 2, 1)] {
         for p in programs.iter().take(3) {
